@@ -1,3 +1,87 @@
 package corpus
 
-func addKitchenResources(s *Schema) {}
+// addKitchenResources adds the resource specifications of the kitchen sink: every resource kind x key type x
+// method kind the properties name.
+func addKitchenResources(s *Schema) {
+	const ns = "ks.kt"
+	q := func(n string) string { return ns + "." + n }
+	add := func(t *TypeDef) { s.Add(t) }
+	add(&TypeDef{Kind: "record", Name: "Audit", Namespace: ns, Fields: []Field{F("by", P("string")), F("at", P("int64"))}})
+	add(&TypeDef{Kind: "record", Name: "Thing", Namespace: ns, Fields: []Field{
+		F("id", P("int64")), F("name", P("string")), F("tags", A(P("string"))), F("createdBy", P("string")), F("leaf", R(q("Leaf"))),
+		Opt("opt", P("string")), F("attrs", M(P("string"))), Opt("audit", R(q("Audit"))), Opt("color", R(q("Color"))), Def("rank", P("int32"), "3"),
+	}})
+	thing, leaf := R(q("Thing")), R(q("Leaf"))
+	str, i32, i64 := P("string"), P("int32"), P("int64")
+	rest := func(name string, onEntity bool) MethodSpec {
+		return MethodSpec{Kind: "REST_METHOD", Name: name, OnEntity: onEntity}
+	}
+	allRest := func(returnEntity bool) []MethodSpec {
+		ms := []MethodSpec{rest("get", true), rest("create", false), rest("update", true), rest("partial_update", true), rest("delete", true),
+			rest("batch_get", false), rest("batch_create", false), rest("batch_update", false), rest("batch_partial_update", false), rest("batch_delete", false)}
+		ga := rest("get_all", false)
+		ga.Paging = true
+		ms = append(ms, ga)
+		if returnEntity {
+			for i := range ms {
+				if ms[i].Name == "create" || ms[i].Name == "partial_update" || ms[i].Name == "batch_create" {
+					ms[i].ReturnEntity = true
+				}
+			}
+		}
+		return ms
+	}
+	finder := func(name string, paging bool, metadata *TypeExpr, params ...Param) MethodSpec {
+		return MethodSpec{Kind: "FINDER", Name: name, Params: params, Paging: paging, Metadata: metadata}
+	}
+	action := func(name string, onEntity bool, ret *TypeExpr, params ...Param) MethodSpec {
+		return MethodSpec{Kind: "ACTION", Name: name, OnEntity: onEntity, Return: ret, Params: params}
+	}
+	arrStr, mapLeaf := A(P("string")), M(R(q("Leaf")))
+	res := func(namespace string, segs []PathSeg, schema *TypeExpr, methods []MethodSpec, ro, co []string) {
+		s.Resources = append(s.Resources, &Resource{Namespace: namespace, Segments: segs, Schema: schema, Methods: methods, ReadOnly: ro, CreateOnly: co})
+	}
+	// 1. collection keyed by string, every method, finders, actions, annotations
+	things := append(allRest(false),
+		finder("byName", true, &leaf, F("name", str)),
+		finder("byTags", false, nil, F("tags", arrStr), Opt("limit", i32), F("filter", R(q("Leaf")))),
+		action("ping", false, &str),
+		action("sum", false, &i64, F("a", i32), F("b", i64), Opt("note", str)),
+		action("touch", true, nil, Opt("note", str)),
+		action("describe", true, &thing, F("verbose", P("bool"))),
+		action("names", false, &arrStr),
+		action("index", false, &mapLeaf, F("keys", arrStr)),
+	)
+	res("ks.things", []PathSeg{{Name: "things", KeyName: "thingId", Key: &str}}, &thing, things, []string{"id", "audit/at"}, []string{"createdBy"})
+	// 2. collection keyed by int64, return-entity variants
+	longs := append(allRest(true), finder("recent", true, nil))
+	res("ks.longs", []PathSeg{{Name: "longs", KeyName: "longId", Key: &i64}}, &leaf, longs, nil, nil)
+	// 3. typeref key
+	tstr := R(q("TString"))
+	res("ks.typed", []PathSeg{{Name: "typed", KeyName: "typedId", Key: &tstr}}, &leaf,
+		[]MethodSpec{rest("get", true), rest("delete", true), rest("batch_get", false), rest("batch_delete", false), rest("create", false)}, nil, nil)
+	// 4. enum key
+	col := R(q("Color"))
+	res("ks.colors", []PathSeg{{Name: "colors", KeyName: "colorId", Key: &col}}, &leaf, []MethodSpec{rest("get", true), rest("batch_get", false), rest("update", true)}, nil, nil)
+	// 6. complex key
+	ck := R(q("CK"))
+	res("ks.cks", []PathSeg{{Name: "cks", KeyName: "ckId", Key: &ck}}, &thing,
+		[]MethodSpec{rest("get", true), rest("create", false), rest("update", true), rest("partial_update", true), rest("delete", true),
+			rest("batch_get", false), rest("batch_update", false), rest("batch_partial_update", false), rest("batch_delete", false), rest("batch_create", false),
+			action("poke", true, &str)}, []string{"id"}, nil)
+	// 7. simple resource
+	res("ks.single", []PathSeg{{Name: "single"}}, &thing,
+		[]MethodSpec{rest("get", false), rest("update", false), rest("partial_update", false), rest("delete", false), action("reset", false, nil, Opt("hard", P("bool")))}, []string{"id"}, []string{"createdBy"})
+	// 8. action set
+	res("ks.acts", []PathSeg{{Name: "acts"}}, nil,
+		[]MethodSpec{action("echo", false, &str, F("text", str)), action("noop", false, nil), action("mk", false, &leaf, F("s", str), Opt("n", i32))}, nil, nil)
+	// 9. sub-resources under parent keys
+	res("ks.things.parts", []PathSeg{{Name: "things", KeyName: "thingId", Key: &str}, {Name: "parts", KeyName: "partId", Key: &i32}}, &leaf,
+		append(allRest(false), finder("byS", false, nil, F("s", str)), action("count", false, &i32), action("flip", true, &P_bool)), nil, nil)
+	res("ks.things.parts.detail", []PathSeg{{Name: "things", KeyName: "thingId", Key: &str}, {Name: "parts", KeyName: "partId", Key: &i32}, {Name: "detail"}}, &leaf,
+		[]MethodSpec{rest("get", false), rest("update", false), rest("delete", false)}, nil, nil)
+	res("ks.single.subs", []PathSeg{{Name: "single"}, {Name: "subs", KeyName: "subId", Key: &i64}}, &leaf,
+		[]MethodSpec{rest("get", true), rest("batch_get", false), rest("get_all", false)}, nil, nil)
+}
+
+var P_bool = P("bool")
